@@ -468,6 +468,11 @@ func (h *H) ReplayOne(t *testing.T, subs map[string]ReplayFunc) {
 		fmt.Printf("REPLAY-INCONCLUSIVE %s\n", v.Discard)
 		return
 	}
+	if !v.OK && v.Known != "" && h.isListedKnown(v.Known) {
+		// the case reproduces a listed known finding (and matches its signature)
+		fmt.Printf("REPLAY-KNOWN %s %s\n", v.Known, clip(v.Detail, 300))
+		return
+	}
 	if !v.OK {
 		fmt.Printf("SHARD-VIOLATION property=%s replay=%s\n", h.Property, path)
 		t.Fatalf("replay fails: %s\n--- expected\n%s\n--- observed\n%s", v.Detail, v.Expected, v.Observed)
